@@ -4,6 +4,7 @@ package vrt
 
 import (
 	"fmt"
+	"os"
 	"unsafe"
 )
 
@@ -88,6 +89,13 @@ func Conc(x int) int { return x }
 
 // Symbolic reports whether the harness runs under the symbolic engine.
 func Symbolic() bool { return false }
+
+// Dump prints b (natively, when VERIF_DUMP is set; nothing under the engine): a triage aid.
+func Dump(label string, b []byte) {
+	if os.Getenv("VERIF_DUMP") != "" {
+		fmt.Fprintf(os.Stderr, "DUMP %s: %x\n", label, b)
+	}
+}
 
 // Note records a value in the evidence sample.
 func Note(label string, v int) {}
